@@ -40,14 +40,18 @@ Uniq classify(double lat1, double lat2, L lon12, double s12) {
   return u;
 }
 
-// Known finding G1 (known_findings.json): on ellipsoids with |f| >= 0.19 the inverse solvers fail to converge
-// to the geodesic joining the points when the pair lies in the (generalised) antipodal region: the returned
-// geodesic misses point 2 by millimetres up to thousands of km.  Region, decided from the inputs only, in the
-// astroid coordinates of the theory (lamscale = |f| pi cos(beta1), betscale = lamscale cos(beta1)):
+// Known finding G1 (known_findings.json): on ellipsoids with third flattening |n| = |f/(2-f)| > 0.1 (f > 2/11 or
+// f < -2/9) InverseStart skips its astroid starting guess ("fabs(_n) > 0.1" in Geodesic(Exact).cpp) and Newton's
+// method then fails to converge to the geodesic joining the points when the pair lies in the (generalised)
+// antipodal region: the returned geodesic misses point 2 by millimetres up to thousands of km.  Region, decided
+// from the inputs only, in the astroid coordinates of the theory (lamscale = |f| pi cos(beta1), betscale =
+// lamscale cos(beta1)):
 //   oblate : |beta1 + beta2| <= 0.01 betscale (incl. lat1 = -lat2 exactly) and pi - |lam12| <= 3 lamscale
 //   any f  : |lat1|, |lat2| <= 0.5 deg and |lon12| >= 180 min(1, 1-f) - 15 deg (nearly equatorial, near conjugate)
+//   prolate: |lat1|, |lat2| <= 2e-15 deg, not both zero, |lon12| >= 20 deg (equator-hugging geodesics whose azimuth
+//            must be resolved to ~1e-19 rad; the thorough tier found f = -1, lat = 3.5e-18, lon12 = 129: 987 km off)
 bool in_G1(double f, double lat1, double lat2, L lon12) {
-  if (!(std::fabs(f) >= 0.19)) return false;
+  if (!(fabsl((L)f / (2 - (L)f)) > 0.1L)) return false;
   L conj = 180 * std::min<L>(1, 1 - (L)f);
   if (std::fabs(lat1) <= 0.5 && std::fabs(lat2) <= 0.5 && fabsl(lon12) >= conj - 15) return true;
   if (f > 0) {
@@ -55,12 +59,23 @@ bool in_G1(double f, double lat1, double lat2, L lon12) {
     L cb = std::max(cosl(b1), cosl(b2));
     L lamscale = (L)f * ref::PI_L * cb, betscale = lamscale * cb;
     if (fabsl(b1 + b2) <= 0.01L * betscale && ref::PI_L - fabsl(lon12) * ref::DEG_L <= 3 * lamscale) return true;
+  } else {
+    if (std::fabs(lat1) <= 2e-15 && std::fabs(lat2) <= 2e-15 && (lat1 != 0 || lat2 != 0) && fabsl(lon12) >= 20) return true;
   }
   return false;
 }
+// Known finding G3: slightly prolate ellipsoids (-3e-5 <= f <= -5e-7), lon12 = +-180 exactly and both latitudes within
+// 2e-15 deg of the equator (not both zero): the starting guess is azi1 = 90 exactly, Newton's method then doubles
+// cos(alp1) from ~1e-19 and is cut off after maxit1_ = 20 iterations one step short of convergence, and the
+// bisection that follows cannot resolve the root; s12 comes out up to 11 m too long.
+bool in_G3(double f, double lat1, double lat2, L lon12) {
+  return f >= -3e-5 && f <= -5e-7 && fabsl(lon12) == 180 && std::fabs(lat1) <= 2e-15 && std::fabs(lat2) <= 2e-15 && (lat1 != 0 || lat2 != 0);
+}
 // a failure inside the region of a listed known finding is reported as KNOWN, not as a violation
 void apply_known(Verdict& v, double f, double lat1, double lat2, L lon12) {
-  if (v.failed() && vf::known_on("G1") && in_G1(f, lat1, lat2, lon12)) v.known("G1", "inside region of known finding G1: " + v.msg);
+  if (!v.failed()) return;
+  if (vf::known_on("G1") && in_G1(f, lat1, lat2, lon12)) v.known("G1", "inside region of known finding G1: " + v.msg);
+  else if (vf::known_on("G3") && in_G3(f, lat1, lat2, lon12)) v.known("G3", "inside region of known finding G3: " + v.msg);
 }
 
 L az_diff(L x, L y) { return fabsl(remainderl(x - y, 360.0L)); }
@@ -83,7 +98,7 @@ Verdict check_join(const J& r) {
   if ((L)o.s12 / (0.5L * Rmin) > 6000) { v.skip("reference too expensive for this eccentricity/length"); return v; }
   // K = 2 times the documented figure; the b/a table of GeodesicExact.hpp is labelled "approximate maximum
   // error" and the property only quotes the WGS84 figure for the exact solver, so K = 4 for |f| > 0.5
-  L tolp = (std::fabs(f) > 0.5 ? 4 : 2) * doc_tol(solver, a, f) * (1 + (L)o.a12 / 90);
+  L tolp = kdoc(solver, a, f) * (1 + (L)o.a12 / 90);
   ref::OdeResult R = ode.direct(lat1, lon1, o.azi1, o.s12, 0, 0.01L * tolp);
   if (!(R.err <= 0.02L * tolp)) { v.skip("reference not converged"); return v; }
   v.nontrivial = o.s12 > 0;
@@ -181,7 +196,7 @@ Verdict check_sym(const J& r) {
   ref::Ellipsoid E(a, f);
   L lon12 = lon12_of(lon1, lon2);
   Uniq u = classify(lat1, lat2, lon12, o.s12);
-  L tolp = 2 * doc_tol(solver, a, f) * (1 + (L)o.a12 / 90);
+  L tolp = kdoc(solver, a, f) * (1 + (L)o.a12 / 90);
   v.tag(solver_exact(solver) ? "exact" : "series"); v.tag(r.has("kind") ? r.gets("kind") : "?");
   v.nontrivial = o.s12 > 0;
   if (u.oppo_lat) v.tag("set:lat1=-lat2"); if (u.oppo_mer) v.tag("set:lon12=180"); if (u.poles) v.tag("set:pole");
@@ -225,7 +240,7 @@ Verdict check_cfg(const J& r) {
   v.tag(r.has("kind") ? r.gets("kind") : "?"); v.tag(fclass(f));
   v.nontrivial = o[0].s12 > 0;
   for (int i = 0; i < 3; ++i) for (int j = i + 1; j < 3; ++j) {
-    L tolp = 2 * (doc_tol(i, a, f) + doc_tol(j, a, f)) * (1 + (L)o[i].a12 / 90);
+    L tolp = (kdoc(i, a, f) + kdoc(j, a, f)) * (1 + (L)o[i].a12 / 90);
     char nm[64]; std::snprintf(nm, sizeof nm, "solver%d vs solver%d", i, j);
     if (i == 1 && j == 2) {   // same code path: GeodesicExact and Geodesic(exact=true) must agree to round-off
       tolp = std::min<L>(tolp, 64 * 2.3e-16L * E.a);
@@ -252,13 +267,16 @@ Verdict check_tri(const J& r) {
     lat3 = q.lat2; lon3 = q.lon2;
   }
   Inv o13 = lib_inverse(solver, a, f, lat1, lon1, lat3, lon3), o32 = lib_inverse(solver, a, f, lat3, lon3, lat2, lon2);
-  L tolp = 2 * doc_tol(solver, a, f) * 3 * 3;
+  L tolp = kdoc(solver, a, f) * 3 * 3;
   v.nontrivial = o.s12 > 0; v.tag(mode == 1 ? "third-near-geodesic" : "third-generated"); v.tag(r.has("kind") ? r.gets("kind") : "?");
   v.le((L)o.s12 - ((L)o13.s12 + (L)o32.s12), tolp, "triangle inequality s12 <= s13 + s32 [m]");
   L p1[3], p2[3]; ref::to_cart(E, lat1, lon1, p1); ref::to_cart(E, lat2, lon2, p2);
   v.le(ref::dist3(p1, p2) - (L)o.s12, tolp, "s12 >= 3-D chord [m]");
-  if (v.failed() && vf::known_on("G1") && (in_G1(f, lat1, lat2, lon12_of(lon1, lon2)) || in_G1(f, lat1, lat3, lon12_of(lon1, lon3)) || in_G1(f, lat3, lat2, lon12_of(lon3, lon2))))
-    v.known("G1", "inside region of known finding G1: " + v.msg);
+  if (v.failed()) {   // any of the three inverse problems may be the one inside a known region
+    apply_known(v, f, lat1, lat2, lon12_of(lon1, lon2));
+    if (v.failed()) apply_known(v, f, lat1, lat3, lon12_of(lon1, lon3));
+    if (v.failed()) apply_known(v, f, lat3, lat2, lon12_of(lon3, lon2));
+  }
   return v;
 }
 
@@ -277,7 +295,7 @@ Verdict check_line(const J& r) {
     Geodesic g(a, f, solver == 2); GeodesicLine l = g.InverseLine(lat1, lon1, lat2, lon2, Geodesic::ALL);
     arc = l.Arc(); dist = l.Distance(); lazi = l.Azimuth(); a12r = l.Position(dist, la, lo, az);
   }
-  L tolp = 2 * doc_tol(solver, a, f) * (1 + (L)o.a12 / 90);
+  L tolp = kdoc(solver, a, f) * (1 + (L)o.a12 / 90);
   v.nontrivial = o.s12 > 0; v.tag(solver_exact(solver) ? "exact" : "series"); v.tag(r.has("kind") ? r.gets("kind") : "?");
   v.le(fabsl((L)dist - (L)o.s12), tolp, "InverseLine.Distance() vs Inverse s12 [m]");
   v.le(fabsl((L)arc - (L)o.a12), 2 * tolp / std::min(E.a, E.b) / ref::DEG_L + 1e-14L * o.a12, "InverseLine.Arc() vs Inverse a12 [deg]");
